@@ -37,7 +37,7 @@ def _raw_file_ends(step: dict) -> dict:
 
 def run(chk: Check) -> None:
     cids = rule_detected_codemods()
-    vectors = [v for v in progspace.enumerate_vectors(chk) if v["mult"] == 1 and v["imp"] == "asis"]
+    vectors = [v for v in progspace.enumerate_vectors(chk) if v["mult"] == 1 and v["imp"] == "asis" and v["layout"] != "bom"]
     scenarios = progspace.build_batches(chk, codemods=set(cids), vectors=vectors, seeds_per_codemod=chk.pick(3, 10), vectors_per_seed=chk.pick(5, 30),
                                         step_extra={"keep_events": True, "keep_after": True})
     for scn in scenarios:
